@@ -328,6 +328,10 @@ func (x *Exec) builtin(fr *Frame, st *State, site ssa.Instruction, b *ssa.Builti
 			r := freshVal(rt, "recovered")
 			st.assume(Not(Eq(r.C[0], IntConst(0))))
 			x.assumeWF(st, r)
+			// a declared ghost counter "recovers" observes every recovered panic
+			if g, ok := st.ghost["recovers"]; ok {
+				st.ghost["recovers"] = Val{T: g.T, C: []*Term{BVBin("bvadd", g.C[0], BVConst(1, g.C[0].Sort.Width))}}
+			}
 			return r, true
 		}
 		return zeroVal(rt), true
